@@ -28,8 +28,7 @@ def bigValues (db : DB) : Bool :=
 
 def classify (m : List Bool) (db : DB) (r : Rule) : String :=
   let sip := m.getD 1 false
-  if C01.aggNotLast r then "aggregate_not_last_in_head"
-  else if sip && r.posAtoms.length ≥ 2 && r.posAtoms.any C02.atomHasNonVarColumn then "sip_drops_columns_under_aggregate"
+  if sip && r.posAtoms.length ≥ 2 && r.posAtoms.any C02.atomHasNonVarColumn then "sip_drops_columns_under_aggregate"
   else if C02.hasRepeatedVarAtom [r] then "repeated_variable_in_atom"
   else if r.hargs.any (fun | .agg .sum _ => true | .agg .avg _ => true | _ => false) && bigValues db then "sum_partial_saturation"
   else "unclassified"
